@@ -283,5 +283,31 @@ def run(ctx):
                 if nw != 1 or pt.get(X) != lin.p_add(lin.p_atom(X), lin.p_const(1)):
                     okl, whyl = False, "an iteration writes %d frame(s) and leaves the counter at %s" % (nw, lin.p_str(pt.get(X)))
     ctx.check(i2, okl, key(fp, "loop"), fp.where(fp.root), whyl)
+    # a call emits at least one frame unless it is the size query, the samples at hand (carried over + given)
+    # do not make a frame, or there is no room for one: path by path over values, every path that writes no
+    # frame carries one of these three reasons (a call with nothing new to give still has to drain a frame
+    # that was left complete in the carry-over when the output was the limit)
+    bufp = fp.params[3][0]
+    reasons = {"query": 0, "short": 0, "no-room": 0}
+    lazy = None
+    for pt in symx.run_paths(fp, P):
+        if pt.end != "exit" or any(c_[0] == "fe_write_frame" for c_ in pt.calls):
+            continue
+        why_ = None
+        if pt.atoms.get(("nz", bufp)) is False:
+            why_ = "query"
+        for k_, pol in pt.atoms.items():
+            if why_ or k_[0] != "<":
+                continue
+            E = lin.p_add(lin.p_parse(k_[1]), lin.p_parse(k_[2]), -1) if pol else lin.p_add(lin.p_add(lin.p_parse(k_[2]), lin.p_parse(k_[1]), -1), lin.p_const(1), -1)
+            if pol and E == lin.p_parse("*inout_nsamps + %s + -1*fe->frame_size" % NUM):
+                why_ = "short"
+            elif E == lin.p_parse("-1 + %s" % fp.params[4][0]):
+                why_ = "no-room"
+        if why_:
+            reasons[why_] += 1
+        else:
+            lazy = sorted("%s%s" % ("" if v_ else "not ", " ".join(k_)) for k_, v_ in pt.atoms.items())
+    ctx.check(i2, lazy is None and all(reasons.values()), key(fp, "emit-when-possible"), fp.where(fp.root), "fe_process can return without writing a frame although it is not the size query, the samples at hand make a frame and there is room (path: %s): a frame left complete in the carry-over is never drained and the frame count depends on how the caller chunks and limits" % (lazy,))
     few = [r for r in fp.find("Return") if "overflow_append(" in fp.canon(fp.ch(r)[0], subst=False)]
     ctx.check(i2, len(few) == 1 and paths.guarded(fp, few[0], lambda fn, cc, pol: paths.rel(fn, cc, pol, subst=False) == ("(*inout_nsamps + %s)" % NUM, "<", "fe->frame_size")), key(fp, "short-input"), fp.where(fp.root), "input shorter than one window is not just appended to the carry-over")
